@@ -1,7 +1,7 @@
 (* C10 - format never changes what a file means or says.
    Statements only; proofs in Proofs/FormatProofs.v. *)
 From Coq Require Import String.
-From Verif Require Import Base.Str Base.Lines Base.Outcome Model.Patterns Model.ParseLine Model.Format Proofs.FormatProofs Proofs.FormatIdemProofs Proofs.FormatMeaningProofs Proofs.FormatDefLineProofs.
+From Verif Require Import Base.Str Base.Lines Base.Outcome Model.Patterns Model.ParseLine Model.Format Proofs.FormatProofs Proofs.FormatIdemProofs Proofs.FormatMeaningProofs Proofs.FormatDefLineProofs Proofs.FormatIncLineProofs.
 From Verif Require Tie.Pin_lits_cmd_regex_format_processLine Tie.Pin_lits_cmd_regex_format_processFile
   Tie.Pin_ProcessorBlockStartRegex_src Tie.Pin_ProcessorEndRegex_src Tie.Pin_FlagsRegex_src Tie.Pin_PrefixRegex_src
   Tie.Pin_SuffixRegex_src Tie.Pin_DefinitionRegex_src Tie.Pin_IncludeRegex_src Tie.Pin_IncludeExceptRegex_src
@@ -69,3 +69,12 @@ Theorem C10_formatted_definition_line_defines_the_same : forall line indent out 
   m_include out' = m_include line /\ m_include_except out' = m_include_except line.
 Proof. exact format_keeps_definition. Qed.
 Print Assumptions C10_formatted_definition_line_defines_the_same.
+
+(* include directives: all eight directive patterns read the formatted line exactly as the original
+   (same file, same pair list, no other pattern matches) *)
+Theorem C10_formatted_include_line_reads_the_same : forall line indent out next f pairs,
+  trim_left is_blank line = line -> m_include line = Some (f, pairs) ->
+  process_line line indent = (Some out, next) ->
+  same_reading (trim_left is_blank out) line.
+Proof. exact format_keeps_include. Qed.
+Print Assumptions C10_formatted_include_line_reads_the_same.
